@@ -1271,7 +1271,7 @@ def stream_samples(c, N):
                 if b > a: tabs.append('%d %d:%s:%s' % (tag, e, ints(wi), ints(vi)))
         # the Lean model is interpreted and recomputes sub-samples freely: only small cases are sent in full
         haszip = contains(node, 'Z')
-        mode = ('full' if S.npoints <= 16 and S.nelems <= 16 else 'lite' if S.npoints <= (40 if haszip else 64) else
+        mode = ('full' if S.npoints <= 12 and S.nelems <= 12 else 'lite' if S.npoints <= (40 if haszip else 64) else
                 'index' if S.npoints <= (100 if haszip else 400) else 'none')
         c.count('model-mode:' + mode)
         sreq.append('sample|%s|%s|%s' % (mode, expr, ';'.join(tabs) if mode != 'index' else '') if mode != 'none' else 'gauss1|0')
